@@ -56,9 +56,9 @@ CLAIMED.update({
 
 CLAIMED.update({
  "C04": dict(
-   text="Totality and determinism of decoding decided from the tables and the shape of amd/insts: the format table (mask/encoding consistency, overlap and specificity order, opcode fields) which makes format matching independent of map order and sort stability; the decode table of about 1000 rows evaluated from constant expressions (duplicates, field widths, VOP3b routing, dispatch coverage); every getOperand call site against the computed set of defined operand codes using an interval analysis of the code argument; per-format bounds of every buffer access; size accounting incl. the single literal dword shared by two literal operands and an opcode-specific size step for every mnemonic that carries a 32-bit constant; immutability of the decode tables on the decode path; register families of getOperand covered completely; the single-bit helper; a nil test before a lazily created decode table is dereferenced; destination fields that cannot hold constants; the key of every decode cache covering all arguments that select the bytes read (address and process); error handling at the three callers. The inverse property decode(encode(d)) = d is value level and not decided.",
+   text="Totality and determinism of decoding decided from the tables and the shape of amd/insts: the format table (mask/encoding consistency, overlap and specificity order, opcode fields) which makes format matching independent of map order and sort stability; the decode table of about 1000 rows evaluated from constant expressions (duplicates, field widths, VOP3b routing, dispatch coverage); every getOperand call site against the computed set of defined operand codes using an interval analysis of the code argument; per-format bounds of every buffer access; size accounting incl. the single literal dword shared by two literal operands and an opcode-specific size step for every mnemonic that carries a 32-bit constant; immutability of the decode tables on the decode path; register families of getOperand covered completely; the single-bit helper; a nil test before a lazily created decode table is dereferenced; destination fields that cannot hold constants; the key of every decode cache covering all arguments that select the bytes read (address and process); error handling at the three callers; every field extraction of the decode functions and the format table compared with the microcode formats of the ISA manuals transcribed as (format, field) -> (dword, bit range) tables; agreement of the mnemonics of the two encodings of each vector instruction (VOP2/VOP1/VOPC row versus its VOP3 row). The inverse property decode(encode(d)) = d is value level and not decided.",
    ref="4/C04", technique="constant-table evaluation from the type-checked syntax (TABLE), interval analysis on SSA (INTERVAL), dominance cuts (GUARD), decision-table evaluation of getOperand's switch",
-   note="field extraction positions versus the ISA manuals are not compared; nine genuine defects (dropped getOperand errors, unguarded buf[:4], literal dword counted twice in SOP2/SOPC, ttmp11 rejected, GDS bit taken from bit 4, s_setreg_imm32_b32 sized 4 bytes, constants accepted as destinations, v_madak/v_madmk with a literal sized 12 bytes, emulator decode cache keyed by address only) found and repaired by fix: commits"),
+   note="opcode numbers versus the ISA manuals are not compared (only the two encodings of one instruction with each other); the transcribed field layouts are part of the trusted base; ten genuine defects (dropped getOperand errors, unguarded buf[:4], literal dword counted twice in SOP2/SOPC, ttmp11 rejected, GDS bit taken from bit 4, s_setreg_imm32_b32 sized 4 bytes, constants accepted as destinations, v_madak/v_madmk with a literal sized 12 bytes, emulator decode cache keyed by address only, SDWA S0 flag read from the wrong bit) found and repaired by fix: commits"),
 })
 
 CLAIMED.update({
